@@ -1,7 +1,7 @@
 (* Correspondence harness for CVRP (C01-C06): the model at float32 rounding ([f32]) against recorded traces,
    and the exact specification evaluated on the implementation's own episodes. *)
 From Coq Require Import ZArith List Bool Lia Arith.
-From RL4CO Require Import Base.Num Base.EnvSig Spec.Routes Env.CVRP Env.CVRPProofs Harness.HEnv.
+From RL4CO Require Import Base.Num Base.EnvSig Spec.Routes Env.CVRP Env.CVRPProofs Harness.HEnv Harness.HBook.
 Import ListNotations.
 Open Scope Z_scope.
 
@@ -66,3 +66,13 @@ Definition check_C06_sol (c : cvrp_inst * list nat * bool) : Z :=
     else if negb (Bool.eqb (cvrp_checker f32 i acts) verdict) then 13
     else 0
   end.
+
+(* ---------------------------------------------------------------- bookkeeping (C02 / C04, see Harness/HBook.v)
+   keys of the env's step output compared after every step, in this order:
+   current_node (= the action just taken), used_capacity, visited (as a number, bit j = node j) *)
+Definition book_obs (s : cvrp_st) : list Z := [Z.of_nat (cur s); used s; bitsZ (vis s)].
+Definition book_kinds : list nat := [2; 0; 0]%nat.
+(* instance, tolerance per entry, entries after reset, (action, entries after the step) list *)
+Definition cvrp_book := (cvrp_inst * list Z * list Z * list (nat * list Z))%type.
+Definition check_book (c : cvrp_book) : Z :=
+  match c with (i, tols, o0, tr) => book_check (CVRP f32) i book_obs book_kinds tols o0 tr end.
